@@ -70,6 +70,11 @@ type JApiCore struct {
 	// directivesWithPastes directives after processing the MACRO and PASTE directives.
 	directivesWithPastes []*directive.Directive
 
+	// afterInclude is true from the moment the scanner of an including file is resumed
+	// until its next lexeme is seen: nothing but a new directive may follow the file name
+	// of an INCLUDE.
+	afterInclude bool
+
 	// useFixedSeedForRegex use specific constant seed for generating regex example.
 	// Should be used for tests.
 	useFixedSeedForRegex bool
